@@ -503,6 +503,15 @@ theorem dp_passes_independent (exp : R → R) (σ : R) (s H W n nNodes k : Nat)
   · rw [passes_independent, multi_batch_independent]
   · rw [passes_independent]; rfl
 
+/-- a stream of *different* examples (image sizes, keypoints) through one generator is the model
+mapped over the stream: the maps of example `i` are those of example `i` alone (its own `H`, `W`,
+hence its own grid) — nothing is carried over from earlier examples. -/
+theorem dp_stream_independent (exp : R → R) (σ : R) (s n nNodes : Nat)
+    (stream : List (Nat × Nat × List (List (List (Option (R × R)))))) (i : Nat) :
+    (stream.map fun ex => multiConfmapsBatch exp Nat.cast σ s ex.1 ex.2.1 n nNodes ex.2.2)[i]?
+      = (stream[i]?).map fun ex => ex.2.2.map (multiConfmaps exp Nat.cast σ s ex.1 ex.2.1 n nNodes) := by
+  rw [List.getElem?_map]; simp only [multi_batch_independent]
+
 /-! ### regression record for F-C01 (fixed in 372b25e) -/
 
 /-- the pre-fix reduction agreed with the per-sample one on a batch of one sample … -/
